@@ -1,6 +1,7 @@
 package checks
 
 import (
+	"strings"
 	"fmt"
 	"math/rand"
 	"unicode"
@@ -113,6 +114,35 @@ func C15(c *Ctx) {
 		}
 		gs = append(gs, g)
 	}
+	// the same classes as direct operands of * and + (a run of class matches is a code path of its own)
+	// on strings that hold U+FFFD, invalid bytes and non-ASCII runes
+	rep := map[*gast.Grammar]bool{}
+	nRep := 0
+	for _, g0 := range gs {
+		if nRep >= c.N(6, 40) {
+			break
+		}
+		g := &gast.Grammar{}
+		for k, ru := range g0.Rules {
+			cl := ru.Expr.Subs[0].Clone()
+			var e *gast.Expr
+			if k%2 == 0 {
+				e = gast.S(gast.Star(cl), gast.NotE(gast.Dot()))
+			} else {
+				e = gast.S(gast.L("<"), gast.Plus(cl), gast.Opt(gast.L(">")), gast.NotE(gast.Dot()))
+			}
+			g.Rules = append(g.Rules, &gast.Rule{Name: ru.Name, Expr: e})
+		}
+		rep[g] = true
+		gs = append(gs, g)
+		nRep++
+	}
+	var repInputs [][]byte
+	for _, x := range []string{"\ufffd", "\xff", "\x80", "é", "a", "\"", "~", "\u212a", "7"} {
+		for _, f := range []string{"%s", "a%sb", "%s%s", "<%s>", "<a%s", "<%s%sz>", "\"%s\""} {
+			repInputs = append(repInputs, []byte(strings.ReplaceAll(f, "%s", x)))
+		}
+	}
 	inputs := c15Inputs()
 	c.Cov("runes_per_class", len(inputs))
 	c.Cov("basic_latin_runes_enumerated", 128)
@@ -121,6 +151,17 @@ func C15(c *Ctx) {
 		Variants: [][]string{{}, {"-optimize-basic-latin"}, {"-optimize-parser"}, {"-optimize-parser", "-optimize-basic-latin"}},
 		Cases: func(gi int, g *gast.Grammar) []*mon.Case {
 			var cs []*mon.Case
+			if rep[g] {
+				for _, ru := range g.Rules {
+					for _, in := range repInputs {
+						cs = append(cs, &mon.Case{Input: in, Entry: ru.Name, NoTrace: true})
+						if !utf8.Valid(in) {
+							cs = append(cs, &mon.Case{Input: in, Entry: ru.Name, AllowInvalid: true, NoTrace: true})
+						}
+					}
+				}
+				return cs
+			}
 			for _, ru := range g.Rules {
 				for ii, in := range inputs {
 					cs = append(cs, &mon.Case{Input: in, Entry: ru.Name, NoTrace: true})
